@@ -189,9 +189,24 @@ def render_bump_real(b, r):
     return _S(txt) if r == 'str_sub' else np.str_(txt) if r == 'np_str' else txt
 
 
+_cal_hol = []
+
+
 def call_real(t0, t1, bump, reals, keep=None):
-    from pyg_base import drange
-    return guarded(drange, render_end(t0, reals['t0']), render_end(t1, reals['t1']), render_bump_real(bump, reals['bump']), keep)
+    from pyg_base import drange, calendar
+    via = reals.get('via', 'drange')
+    if via == 'cal':
+        if not _cal:
+            _cal.append(calendar('verif_c10_no_holidays'))
+        f = _cal[0].drange
+    elif via == 'cal_hol':                                 # (for bumps without a business-day part neither holidays nor weekend matter)
+        if not _cal_hol:
+            _cal_hol.append(calendar('verif_c10_holidays', holidays=[datetime.datetime(2001, 1, d) for d in (2, 3, 5, 8)] + [datetime.datetime(2001, 2, 1), datetime.datetime(1999, 12, 31)],
+                                     weekend=[4, 5]))
+        f = _cal_hol[0].drange
+    else:
+        f = drange
+    return guarded(f, render_end(t0, reals['t0']), render_end(t1, reals['t1']), render_bump_real(bump, reals['bump']), keep)
 
 
 def edit_registry(e):
@@ -245,7 +260,7 @@ def case_of(t0, t1, bump, form, before=None, reals=None, script=None):
     c['history'] = before or []
     c['after_mutation'] = any(h.get('op') == 'mutate_result' for h in before or [])
     if reals is not None:                                 # how the arguments were realised / the whole session, for --replay
-        c.update({'t0_real': reals['t0'], 't1_real': reals['t1'], 'bump_real': reals['bump'], 'session': True,
+        c.update({'t0_real': reals['t0'], 't1_real': reals['t1'], 'bump_real': reals['bump'], 'via': reals.get('via', 'drange'), 'session': True,
                   'after_registry_edit': any(h.get('op') == 'edit' for h in before or []),
                   'after_call_same_bump': any(h.get('op') == 'drange' and h.get('kind') == bump[0] and h.get('bump') == bump[1] for h in before or [])})
         c['script'] = script or []
@@ -468,7 +483,7 @@ def s2c_sessions(ctx, sessions, label, c2s_sample):
             ctx.sample({'s2c_session_' + fam: [{kk: (vv if kk != 'accept' else [a if a[0] != 'ok' else ['ok', a[1][:3]] for a in vv]) for kk, vv in st.items()} for st in steps]}, limit=12)
     edit_registry(['reset'])
     ctx.extra['sessions_' + label] = {'sessions': sum(fams.values()), 'calls': len(observations), 'by_family': fams,
-                                      'realisations_seen': {a: sorted({o['reals'][a] for o in observations}) for a in ('t0', 't1', 'bump')}}
+                                      'realisations_seen': {a: sorted({o['reals'][a] for o in observations}) for a in ('t0', 't1', 'bump', 'via')}}
     bad = judge(ctx, suspects) or []
     if len({i for i, _ in bad}) != len(suspects):
         from harness.core import Machinery
